@@ -25,6 +25,7 @@ TYPES = ['integer', 'float', 'number', 'boolean', 'string', 'list', 'dict', 'con
 OFS = ['anyof', 'allof', 'noneof', 'oneof']
 
 
+RULE_KEYS = ['type', 'schema', 'min', 'required', 'default', 'items', 'allowed', 'nullable']
 RULE_NAMES = {'allof', 'allow_unknown', 'allowed', 'anyof', 'check_with', 'coerce', 'contains', 'default', 'default_setter',
               'dependencies', 'empty', 'excludes', 'forbidden', 'items', 'keysrules', 'max', 'maxlength', 'meta', 'min',
               'minlength', 'noneof', 'nullable', 'oneof', 'purge_unknown', 'readonly', 'regex', 'rename', 'rename_handler',
@@ -69,7 +70,9 @@ class Gen(object):
             return self.scalar()
         if r.random() < 0.5:
             return [self.arbitrary(depth - 1) for _ in range(r.randrange(0, 4))]
-        return {r.choice(SUBFIELDS + FIELDS): self.arbitrary(depth - 1) for _ in range(r.randrange(0, 4))}
+        # (a document key may be spelled like a rule: 6 % of the keys of arbitrary mappings)
+        return {(r.choice(SUBFIELDS + FIELDS) if r.random() > 0.06 else r.choice(RULE_KEYS)): self.arbitrary(depth - 1)
+                for _ in range(r.randrange(0, 4))}
 
     def hashable_value(self):
         v = self.scalar()
